@@ -8,6 +8,10 @@ package common
 // nudgedOK(points, i, w, h, old value): element i is untouched or was pulled onto the image edge
 //@ pred inImg(v real, i int, w int, h int) = (i % 2 == 0 && (v == 0.0 || v == real(w - 1))) || (i % 2 == 1 && (v == 0.0 || v == real(h - 1)))
 
+// inR: the pixel (int(x), int(y)) is inside the image (truncation toward zero)
+//@ pred inR(x real, y real, w int, h int) = -1.0 < x && x < real(w) && -1.0 < y && y < real(h)
+//@ pred evenIdx(i int, n int) = 0 <= i && i % 2 == 0 && i + 1 < n
+
 //@ func GridSampler_checkAndNudgePoints(image *gozxing.BitMatrix, points []float64) (e error)
 //@   property C19 C06
 //@   requires image != nil && gozxing.wfBM(image) && len(points) % 2 == 0
@@ -16,17 +20,31 @@ package common
 //@   ensures forall i int :: 0 <= i && i < len(points) ==> points[i] == old(points[i]) || inImg(points[i], i, image.width, image.height)
 //@   ensures e == nil && len(points) >= 2 && len(points) % 2 == 0 ==> 0 <= trunc(points[0]) && trunc(points[0]) < image.width && 0 <= trunc(points[1]) && trunc(points[1]) < image.height
 //@   ensures e == nil && len(points) >= 2 && len(points) % 2 == 0 ==> 0 <= trunc(points[len(points)-2]) && trunc(points[len(points)-2]) < image.width && 0 <= trunc(points[len(points)-1]) && trunc(points[len(points)-1]) < image.height
+// a point whose pixel lies inside the image is never moved
+//@   ensures forall i int :: evenIdx(i, len(points)) && inR(old(points[i]), old(points[i+1]), image.width, image.height) ==> points[i] == old(points[i]) && points[i+1] == old(points[i+1])
+// runs: a point that was pulled onto the image has both neighbours inside the image, so (with the first and last
+// point inside, above) the whole leading and the whole trailing run of points up to one pixel outside is pulled back
+//@   ensures e == nil ==> forall i int :: evenIdx(i, len(points)) && i + 3 < len(points) && (points[i] != old(points[i]) || points[i+1] != old(points[i+1])) ==> inR(points[i+2], points[i+3], image.width, image.height)
+//@   ensures e == nil ==> forall i int :: evenIdx(i, len(points)) && i + 3 < len(points) && (points[i+2] != old(points[i+2]) || points[i+3] != old(points[i+3])) ==> inR(points[i], points[i+1], image.width, image.height)
 //@   modifies points[*]
 //@   loop 0: invariant width == image.width && height == image.height && maxOffset == len(points) - 1 && 0 <= offset && offset % 2 == 0 && (offset == 0 ==> nudged)
 //@   loop 0: invariant forall i int :: 0 <= i && i < len(points) ==> points[i] == old(points[i]) || inImg(points[i], i, width, height)
 //@   loop 0: invariant forall i int :: 0 <= i && i < len(points) ==> -1000000000.0 < points[i] && points[i] < 1000000000.0
 //@   loop 0: invariant offset >= 2 && len(points) % 2 == 0 ==> 0 <= trunc(points[0]) && trunc(points[0]) < width && 0 <= trunc(points[1]) && trunc(points[1]) < height
+//@   loop 0: invariant forall i int :: evenIdx(i, len(points)) && i < offset ==> inR(points[i], points[i+1], width, height)
+//@   loop 0: invariant forall i int :: offset <= i && i < len(points) ==> points[i] == old(points[i])
+//@   loop 0: invariant forall i int :: evenIdx(i, len(points)) && inR(old(points[i]), old(points[i+1]), width, height) ==> points[i] == old(points[i]) && points[i+1] == old(points[i+1])
+//@   loop 0: invariant offset >= 2 && offset <= len(points) && !nudged ==> points[offset-2] == old(points[offset-2]) && points[offset-1] == old(points[offset-1])
 //@   loop 0: decreases len(points) - offset
 //@   loop 1: invariant width == image.width && height == image.height && -2 <= offset && offset <= len(points) - 2 && (len(points) - offset) % 2 == 0 && (offset == len(points) - 2 ==> nudged)
 //@   loop 1: invariant forall i int :: 0 <= i && i < len(points) ==> points[i] == old(points[i]) || inImg(points[i], i, width, height)
 //@   loop 1: invariant forall i int :: 0 <= i && i < len(points) ==> -1000000000.0 < points[i] && points[i] < 1000000000.0
 //@   loop 1: invariant len(points) >= 2 && len(points) % 2 == 0 ==> 0 <= trunc(points[0]) && trunc(points[0]) < width && 0 <= trunc(points[1]) && trunc(points[1]) < height
 //@   loop 1: invariant offset <= len(points) - 4 && len(points) % 2 == 0 ==> 0 <= trunc(points[len(points)-2]) && trunc(points[len(points)-2]) < width && 0 <= trunc(points[len(points)-1]) && trunc(points[len(points)-1]) < height
+//@   loop 1: invariant forall i int :: evenIdx(i, len(points)) && inR(old(points[i]), old(points[i+1]), width, height) ==> points[i] == old(points[i]) && points[i+1] == old(points[i+1])
+//@   loop 1: invariant forall i int :: evenIdx(i, len(points)) && i > offset ==> inR(points[i], points[i+1], width, height)
+//@   loop 1: invariant forall i int :: evenIdx(i, len(points)) && i + 3 < len(points) && (points[i] != old(points[i]) || points[i+1] != old(points[i+1])) ==> inR(points[i+2], points[i+3], width, height)
+//@   loop 1: invariant forall i int :: evenIdx(i, len(points)) && i + 3 < len(points) && (points[i+2] != old(points[i+2]) || points[i+3] != old(points[i+3])) ==> inR(points[i], points[i+1], width, height) || (i == offset && nudged)
 //@   loop 1: decreases offset + 2
 
 // ---------------------------------------------------------------- perspective transform (homogeneous form, reals)
